@@ -5,9 +5,29 @@
 // through the allocation registry (in-object vs. one exclusive new[] block).
 #include "vrt.h"
 #include "vrt_alloc.h"
+// Dynamic initialisation of namespace-scope objects runs in definition order: this object's constructor (defined further
+// down) runs before any dynamically initialised object defined after it - so before the library's, should it have any, and
+// before g_static_* below would be if their constexpr default constructor stopped being a constant expression.
+struct EarlyInit { EarlyInit(); };
+static EarlyInit g_early_init;
 #include "vrt_st.h"
 #include "gen_text.h"
 #include <set>
+
+// default-constructed namespace-scope buffers are constant-initialised (constexpr buffer()): a value assigned to them during
+// static initialisation is still theirs when main() starts
+static ST::char_buffer g_static_char;
+static ST::utf16_buffer g_static_u16;
+static ST::utf32_buffer g_static_u32;
+static ST::wchar_buffer g_static_wide;
+static const char EARLY_TEXT[] = "assigned during static initialisation";
+EarlyInit::EarlyInit()
+{
+    g_static_char = ST::char_buffer(EARLY_TEXT, sizeof(EARLY_TEXT) - 1);
+    g_static_u16 = ST::utf16_buffer(u"early", 5);
+    g_static_u32.allocate(40, U'e');
+    g_static_wide = ST::wchar_buffer(L"assigned during static initialisation", 37);
+}
 
 using vrt::Rng;
 using vrt::sfmt;
@@ -403,6 +423,31 @@ static void histories()
 
 static void body()
 {
+    vrt::require("static_init.checks", 4);
+    vrt::phase("static_initialisation", 1, [&](uint64_t, Rng &) {
+        auto chk = [&](const char *what, bool ok) { vrt::evals(); vrt::count("static_init.checks"); if (!ok) vrt::violation(sfmt("C05:%s:value-assigned-during-static-initialisation-lost", what), "a namespace-scope default-constructed buffer no longer holds what an earlier static initialiser assigned to it"); };
+        chk("buffer<char>", g_static_char.size() == sizeof(EARLY_TEXT) - 1 && memcmp(g_static_char.data(), EARLY_TEXT, sizeof(EARLY_TEXT)) == 0);
+        chk("buffer<char16_t>", g_static_u16.size() == 5 && g_static_u16[4] == u'y' && g_static_u16.data()[5] == 0);
+        chk("buffer<char32_t>", g_static_u32.size() == 40 && g_static_u32[39] == U'e' && g_static_u32.data()[40] == 0);
+        chk("buffer<wchar_t>", g_static_wide.size() == 37 && g_static_wide[0] == L'a' && g_static_wide.data()[37] == 0);
+        // the literal macros construct what the corresponding prefixed literal holds
+        auto lit = [&](const char *what, bool ok) { vrt::evals(); if (!ok) vrt::violation(sfmt("C05:%s:literal-macro", what), "size or elements differ from the prefixed string literal"); };
+#define LITCHK(text)                                                                                                                     \
+        do {                                                                                                                             \
+            { ST::char_buffer b = ST_CHAR_LITERAL(text); lit("ST_CHAR_LITERAL", b.size() == sizeof(text) - 1 && memcmp(b.data(), text, sizeof(text)) == 0); }            \
+            { ST::wchar_buffer b = ST_WCHAR_LITERAL(text); lit("ST_WCHAR_LITERAL", b.size() == sizeof(L"" text) / sizeof(wchar_t) - 1 && memcmp(b.data(), L"" text, sizeof(L"" text)) == 0); } \
+            { ST::utf16_buffer b = ST_UTF16_LITERAL(text); lit("ST_UTF16_LITERAL", b.size() == sizeof(u"" text) / 2 - 1 && memcmp(b.data(), u"" text, sizeof(u"" text)) == 0); } \
+            { ST::utf32_buffer b = ST_UTF32_LITERAL(text); lit("ST_UTF32_LITERAL", b.size() == sizeof(U"" text) / 4 - 1 && memcmp(b.data(), U"" text, sizeof(U"" text)) == 0); } \
+        } while (0)
+        LITCHK("");
+        LITCHK("abc");
+        LITCHK("caf\u00e9");
+        LITCHK("\u20ac\u20ac \U0001F600 and a tail long enough for the heap");
+        LITCHK("fifteen chars..");
+        LITCHK("sixteen chars...");
+#undef LITCHK
+    });
+
     vrt::require("steps", 100000);
     vrt::require("op.copy_assign", 1000);
     vrt::require("op.move_assign", 1000);
